@@ -83,46 +83,15 @@ theorem ec1Code_eq (s0 : Nat) (M : Field) (hM : ∀ i, s0 ≤ i → M i 0 0 = 0)
   · have : M (i + 1) 0 0 = 0 := hM _ (by omega)
     simp only [h, if_false, this]; ring
 
-/-- **The `EC2d` defect, exactly.**  `EC2d` as written (`if m and v0:`) equals
-    the Euler characteristic of the complex minus the number of triangles at
-    the array origin that are present.  (The two triangles of the origin cell
-    are `(0,0),(1,0),(1,1)` and `(0,0),(0,1),(1,1)`.) -/
-theorem ec2Code_eq_ec2_minus_origin_triangles (n0 n1 : Nat) (M : Field) (h0 : 1 ≤ n0) (h1 : 1 ≤ n1) :
-    ec2Code n0 n1 M = ec2 n0 n1 M - (M 0 0 0 * M 1 0 0 * M 1 1 0 + M 0 0 0 * M 0 1 0 * M 1 1 0) := by
-  obtain ⟨a, rfl⟩ : ∃ a, n0 = a + 1 := ⟨n0 - 1, by omega⟩
-  obtain ⟨b, rfl⟩ : ∃ b, n1 = b + 1 := ⟨n1 - 1, by omega⟩
-  have key : ∀ i j, voxelEC2Code M (i, j, 0) = voxelEC 2 M (i, j, 0)
-      - (if i = 0 ∧ j = 0 then M 0 0 0 * M 1 0 0 * M 1 1 0 + M 0 0 0 * M 0 1 0 * M 1 1 0 else 0) := by
-    intro i j
-    simp only [voxelEC2Code, voxelEC, contrib, contribSkip0, table_2_2, table_2_3, table_2_4, List.map,
-      List.sum_cons, List.sum_nil, prodAt, fat, Nat.add_zero, padd, Prod.mk.injEq, and_true]
-    by_cases h : i = 0 ∧ j = 0
-    · obtain ⟨rfl, rfl⟩ := h; simp; ring
-    · simp only [h, if_false]; ring
+/-- **`EC2d` computes the Euler characteristic of the 2-d complex**: the loops
+    as they stand (every triangle gated by `if m:` only — also the triangles of
+    the cell at the array origin) are the alternating count
+    `vertices − edges + triangles` of the lattice triangulation of the mask. -/
+theorem ec2Code_eq (n0 n1 : Nat) (M : Field) : ec2Code n0 n1 M = ec2 n0 n1 M := by
   unfold ec2Code ec2 sum3
-  simp only [sumN_one, key]
-  -- split off the (0,0) voxel
-  have split : ∀ (n : Nat) (f : Nat → Int) (c : Int),
-      sumN (n + 1) (fun i => f i - (if i = 0 then c else 0)) = sumN (n + 1) f - c := by
-    intro n f c
-    induction n with
-    | zero => simp [sumN]
-    | succ n ih =>
-        have e1 : sumN (n + 1 + 1) (fun i => f i - (if i = 0 then c else 0))
-            = sumN (n + 1) (fun i => f i - (if i = 0 then c else 0))
-              + (f (n + 1) - (if n + 1 = 0 then c else 0)) := rfl
-        have e2 : sumN (n + 1 + 1) f = sumN (n + 1) f + f (n + 1) := rfl
-        rw [e1, e2, ih, if_neg (Nat.succ_ne_zero n)]; ring
-  have inner : ∀ i, sumN (b + 1) (fun j => voxelEC 2 M (i, j, 0)
-      - (if i = 0 ∧ j = 0 then M 0 0 0 * M 1 0 0 * M 1 1 0 + M 0 0 0 * M 0 1 0 * M 1 1 0 else 0))
-      = sumN (b + 1) (fun j => voxelEC 2 M (i, j, 0))
-        - (if i = 0 then M 0 0 0 * M 1 0 0 * M 1 1 0 + M 0 0 0 * M 0 1 0 * M 1 1 0 else 0) := by
-    intro i
-    by_cases hi : i = 0
-    · subst hi; simp only [true_and, if_true]; exact split b _ _
-    · simp only [hi, false_and, if_false, sub_zero]
-  simp only [inner]
-  exact split a _ _
+  refine sumN_congr (fun i _ => sumN_congr (fun j _ => ?_))
+  rw [sumN_one]
+  simp only [voxelEC2Code, voxelEC, table_2_4, contrib, List.map, List.sum_nil, sub_zero]
 
 /-! ## Solid boxes -/
 
@@ -144,8 +113,7 @@ theorem ec3_box (a b c : Nat) (ha : 1 ≤ a) (hb : 1 ≤ b) (hc : 1 ≤ c) :
   simp only [key]
   rw [sum3_prod, sumN_lastI a ha, sumN_lastI b hb, sumN_lastI c hc]; rfl
 
-/-- the same in two dimensions (for the count `Lips2d` accumulates; `EC2d`
-    itself is off by the origin triangles, see above) -/
+/-- the same in two dimensions (`EC2d` through `ec2Code_eq`, and `Lips2d`'s `l0`) -/
 theorem ec2_box (a b : Nat) (ha : 1 ≤ a) (hb : 1 ≤ b) : ec2 a b (boxF a b 1) = 1 := by
   unfold ec2
   have key : ∀ i j k, voxelEC 2 (boxF a b 1) (i, j, k) = lastI a i * lastI b j * ind 1 k := by
@@ -296,6 +264,36 @@ theorem tetV2_box_cell (x y z h0 h1 h2 : Rat) :
   simp only [tetV2]
   refine ⟨?_, ?_, ?_, ?_, ?_, ?_⟩ <;> ring
 
+/-- **Volume of a solid box, counting part.**  In a solid `a × b × c` box of
+    voxels exactly `6 (a−1)(b−1)(c−1)` tetrahedra pass the mask test of the
+    `Lips3d` loop (six per lattice cell, none hanging over the border). -/
+theorem box_tet_count (a b c : Nat) (ha : 1 ≤ a) (hb : 1 ≤ b) (hc : 1 ≤ c) :
+    sum3 a b c (fun i j k => contrib (table 3 4) (boxF a b c) (i, j, k))
+      = 6 * ((a : Int) - 1) * ((b : Int) - 1) * ((c : Int) - 1) := by
+  have key : ∀ i j k, contrib (table 3 4) (boxF a b c) (i, j, k)
+      = (6 * ind a (i + 1)) * ind b (j + 1) * ind c (k + 1) := by
+    intro i j k
+    simp only [contrib, table_3_4, List.map, List.sum_cons, List.sum_nil, prodAt, fat, Nat.add_zero, boxF]
+    rcases ind_cases a i with ⟨h1, h2, _⟩ | ⟨h1, h2, _⟩ | ⟨h1, h2, _⟩ <;>
+    rcases ind_cases b j with ⟨g1, g2, _⟩ | ⟨g1, g2, _⟩ | ⟨g1, g2, _⟩ <;>
+    rcases ind_cases c k with ⟨f1, f2, _⟩ | ⟨f1, f2, _⟩ | ⟨f1, f2, _⟩ <;>
+    simp only [h1, h2, g1, g2, f1, f2] <;> norm_num
+  simp only [key]
+  rw [sum3_prod, sumN_mul_left, sumN_ind_succ, sumN_ind_succ, sumN_ind_succ,
+    Nat.min_eq_right (Nat.sub_le a 1), Nat.min_eq_right (Nat.sub_le b 1), Nat.min_eq_right (Nat.sub_le c 1)]
+  push_cast [Nat.cast_sub ha, Nat.cast_sub hb, Nat.cast_sub hc]
+  ring
+
+/-- **`mu3` of a solid box is `abc`** (with `sqrt` as a parameter `sq`): the
+    `6 (n₀−1)(n₁−1)(n₂−1)` tetrahedra of `box_tet_count`, each of volume
+    `sq(v2)/6` with `v2 = (h₀h₁h₂)²` (`tetV2_box_cell`), add up to the product
+    of the edge lengths `(n_i − 1) h_i` measured in the supplied coordinates. -/
+theorem lips3_box_volume (n0 n1 n2 : Nat) (h0 h1 h2 : Rat) (sq : Rat → Rat)
+    (hsq : sq ((h0 * h1 * h2) ^ 2) = h0 * h1 * h2) :
+    (6 * ((n0 : Rat) - 1) * ((n1 : Rat) - 1) * ((n2 : Rat) - 1)) * (sq ((h0 * h1 * h2) ^ 2) / 6)
+      = (((n0 : Rat) - 1) * h0) * (((n1 : Rat) - 1) * h1) * (((n2 : Rat) - 1) * h2) := by
+  rw [hsq]; ring
+
 /-- `L` of `mu2_tri` is Lagrange's identity: `|e₁|²|e₂|² − (e₁·e₂)² = |e₁ × e₂|²`
     with `e_i = p_i − p₀`, so `sqrt(L)/2` is the area. -/
 theorem triL_cross (x0 y0 z0 x1 y1 z1 x2 y2 z2 : Rat) :
@@ -386,9 +384,15 @@ theorem quasi_add_value (a b c : Quasi) (h : a.add b = some c) (x r : Rat)
 
 /-! ## Non-vacuity -/
 
-/-- the solid 3×4 mask: the complex has Euler characteristic 1, `EC2d` as
-    written returns −1 (both origin triangles are present) -/
-example : ec2 3 4 (boxF 3 4 1) = 1 ∧ ec2Code 3 4 (boxF 3 4 1) = -1 := by decide +kernel
+/-- `hsq` of `lips3_box_volume` only asks `sq` for the non-negative root at one argument
+    (steps 2, 1, 1/2: `sq 1 = 1`) -/
+example : (fun _ : Rat => (1 : Rat)) (((2 : Rat) * 1 * (1 / 2)) ^ 2) = 2 * 1 * (1 / 2) := by norm_num
+
+/-- a 2×3×2 box of voxels has 6·1·2·1 = 12 tetrahedra -/
+example : sum3 2 3 2 (fun i j k => contrib (table 3 4) (boxF 2 3 2) (i, j, k)) = 12 := by decide +kernel
+
+/-- the solid 3×4 mask (both triangles of the origin cell present): `EC2d` gives 1 -/
+example : ec2Code 3 4 (boxF 3 4 1) = 1 := by decide +kernel
 
 example : SuppIn 2 2 2 (boxF 2 2 2) := by
   intro i j k h
